@@ -8,7 +8,7 @@ import copy
 from .facts import Body, strip_generics
 from . import flow
 
-MAX_BLOCKS = 400
+MAX_BLOCKS = 1200
 CLOSURE_CALLS = {"core::ops::function::FnMut::call_mut", "core::ops::function::FnOnce::call_once", "core::ops::function::Fn::call"}
 
 
@@ -81,7 +81,7 @@ def _shift_block(b, lo, bo):
         _shift_place(t["resume_arg"], lo)
 
 
-def _callee_of(F, body, t, stack, keep=()):
+def _callee_of(F, body, t, stack, keep=(), only=None):
     """(callee Body, mode) for an inlinable call terminator, else None"""
     if t["k"] != "call" or t.get("target") is None:
         return None
@@ -90,12 +90,14 @@ def _callee_of(F, body, t, stack, keep=()):
     cb = F.bodies.get(res)
     if res in keep or strip_generics(res) in keep:
         return None
+    if only is not None and not res.startswith(tuple(only)) and not res.lstrip("<").startswith(tuple(only)):
+        return None
     if cb is not None and not cb.is_coroutine and cb.kind in ("Fn", "AssocFn") and res not in stack and len(cb.blocks) <= MAX_BLOCKS:
         return cb, "fn"
     return None
 
 
-def inline_body(F, body, depth=3, _stack=None, keep=()):
+def inline_body(F, body, depth=3, _stack=None, keep=(), only=None):
     stack = list(_stack or []) + [body.path]
     raw = copy.deepcopy(body.raw)
     for b in raw["blocks"]:
@@ -113,7 +115,7 @@ def inline_body(F, body, depth=3, _stack=None, keep=()):
         if len(blk.get("inl_stack", [])) >= depth:
             continue
         tmp_body = None
-        c = _callee_of(F, body, t, origin_stack, keep)
+        c = _callee_of(F, body, t, origin_stack, keep, only)
         mode = None
         callee = None
         closure_env = None
@@ -135,6 +137,7 @@ def inline_body(F, body, depth=3, _stack=None, keep=()):
             res = t.get("resolved") or ""
             cb = F.bodies.get(res)
             if cb is not None and cb.is_coroutine and res not in origin_stack and res not in keep and strip_generics(res) not in keep \
+                    and (only is None or res.startswith(tuple(only)) or res.lstrip("<").startswith(tuple(only))) \
                     and len(cb.blocks) <= MAX_BLOCKS and any("Await" in m for m in t.get("macros", [])):
                 tmp_body = Body(raw, body.crate)
                 tmp_body.path = body.path
